@@ -377,7 +377,8 @@ impl MinCostFlowSolver {
         ]
         .into_iter()
         .max()
-        .unwrap();
+        .unwrap()
+        .max(1); // if all costs are zero, vehicles must still be more expensive than anything else
 
         // spawning cost = costliest activity * (3 * planning days) * total_lower_bound.
         // This suffices, as the total non-spawning costs for the trivial schedule, where each vehicle do exactly one
